@@ -162,7 +162,8 @@ func ParseSliceType(nalu []byte) (uint8, error) {
 		return 0, nazaerrors.Wrap(base.ErrShortBuffer)
 	}
 
-	br := nazabits.NewBitReader(nalu[1:])
+	// one zero byte behind a copy of the data: see ParseSps
+	br := nazabits.NewBitReader(append(append(make([]byte, 0, len(nalu)), nalu[1:]...), 0))
 
 	// skip first_mb_in_slice
 	if _, err := br.ReadGolomb(); err != nil {
